@@ -77,40 +77,47 @@ Proof.
 Qed.
 
 (* the number whose e-spelling normalize_float returns *)
-Definition canon_number (n : number) (pad : nat) : number :=
+Definition canon_number (n : number) : number :=
   match n_exp n, n_frac n with
   | None, Some f => with_frac n (Some (canon_frac f))
-  | Some _, Some f => with_frac n (Some (f ++ zeros pad))
+  | Some _, Some f => with_frac n (Some (keep_frac (n_int n) f))
   | _, None => n
   end.
 
-Lemma normal_form_is_spelling n pad : normal_form n pad = spell (canon_number n pad) 0 Me.
+Lemma normal_form_is_spelling n : normal_form n = spell (canon_number n) 0 Me.
 Proof.
   unfold normal_form, spell, canon_number, frac_str, exp_str, with_frac.
   destruct (n_exp n) as [[es ed]|] eqn:Ee, (n_frac n) as [f|] eqn:Ef; simpl; rewrite ?Ee, ?Ef; simpl;
-    rewrite ?sapp_nil_r; reflexivity.
+    rewrite ?sapp_nil_r, ?sapp_assoc; reflexivity.
 Qed.
 
-Lemma canon_number_value n pad : number_value (canon_number n pad) == number_value n.
+Lemma value_canon_frac n f : n_frac n = Some f ->
+  number_value (with_frac n (Some (canon_frac f))) == number_value n.
+Proof.
+  intros Ef. unfold canon_frac. destruct (rstrip0 f) as [|y r] eqn:E.
+  - (* the fraction was all zeros: "0" is "" padded once *)
+    assert (H0 : number_value (with_frac n (Some "0")) == number_value (with_frac n (Some ""))).
+    { apply (value_pad (with_frac n (Some "")) "" 1). reflexivity. }
+    rewrite H0. rewrite <- E. now apply value_strip.
+  - rewrite <- E. now apply value_strip.
+Qed.
+
+Lemma canon_number_value n : number_value (canon_number n) == number_value n.
 Proof.
   unfold canon_number. destruct (n_exp n) as [[es ed]|] eqn:Ee, (n_frac n) as [f|] eqn:Ef; try reflexivity.
-  - now apply value_pad.
-  - unfold canon_frac. destruct (rstrip0 f) as [|y r] eqn:E.
-    + (* the fraction was all zeros: "0" is "" padded once *)
-      assert (H0 : number_value (with_frac n (Some "0")) == number_value (with_frac n (Some ""))).
-      { apply (value_pad (with_frac n (Some "")) "" 1). reflexivity. }
-      rewrite H0. rewrite <- E. now apply value_strip.
-    + rewrite <- E. now apply value_strip.
+  - unfold keep_frac. destruct (nonempty (n_int n)); [now apply value_strip | now apply value_canon_frac].
+  - now apply value_canon_frac.
 Qed.
 
-Lemma canon_number_wf n pad : wf_number n = true -> wf_number (canon_number n pad) = true.
+Lemma canon_number_wf n : wf_number n = true -> wf_number (canon_number n) = true.
 Proof.
   unfold wf_number, canon_number, with_frac, frac_digits. intros W.
   destruct (n_exp n) as [[es ed]|] eqn:Ee, (n_frac n) as [f|] eqn:Ef; simpl; rewrite ?Ee, ?Ef; try exact W.
   - repeat (apply andb_true_iff in W; destruct W as [W ?]).
-    rewrite W, H2, H. rewrite all_digits_app, H1, all_digits_zeros. simpl.
-    apply orb_true_iff in H0. destruct H0 as [H0|H0]; [now rewrite H0|].
-    rewrite (nonempty_app_l _ _ H0). now rewrite orb_true_r.
+    rewrite W, H2, H, (all_digits_keep (n_int n) f H1). simpl.
+    unfold keep_frac. destruct (nonempty (n_int n)) eqn:Ei; [reflexivity|].
+    assert (Hc : nonempty (canon_frac f) = true) by (unfold canon_frac; destruct (rstrip0 f); reflexivity).
+    now rewrite Hc.
   - repeat (apply andb_true_iff in W; destruct W as [W ?]).
     rewrite W, H2, (all_digits_canon f H1). simpl.
     assert (Hc : nonempty (canon_frac f) = true) by (unfold canon_frac; destruct (rstrip0 f); reflexivity).
@@ -123,7 +130,7 @@ Theorem normalize_float_value n pad m :
              wf_number n' = true /\ number_value n' == number_value n /\
              n_sign n' = n_sign n /\ n_int n' = n_int n /\ n_exp n' = n_exp n.
 Proof.
-  intros W M. exists (canon_number n pad).
+  intros W M. exists (canon_number n).
   rewrite (norm_spell n pad m W M), normal_form_is_spelling.
   split; [reflexivity|]. split; [now apply canon_number_wf|]. split; [apply canon_number_value|].
   unfold canon_number, with_frac. destruct (n_exp n) as [[es ed]|] eqn:Ee, (n_frac n); simpl; auto.
